@@ -15,7 +15,7 @@ PY
 rc=$?
 if [ $rc -eq 0 ]; then
   if [ "${MUT_TESTS:-0}" = "1" ]; then (cd "$d" && /venv/bin/python -m pytest -q -x -p no:cacheprovider test 2>&1 | tail -3); fi
-  VERIF_REPO="$d" /verif/check "$@" 2>&1 | grep -v "^  " | cut -c1-400 | head -${MUT_LINES:-12}
+  VERIF_OUT=/verif/scratch/alt VERIF_REPO="$d" /verif/check "$@" 2>&1 | grep -v "^  " | cut -c1-400 | head -${MUT_LINES:-12}
   echo "exit=${PIPESTATUS[0]}"
 fi
 rm -rf "$d"
